@@ -110,3 +110,22 @@ Example C17_example_fault :
    | _ => ([], true, None)
    end) = (["a";"b";"c";"d";"e";"f"]%byte, false, None).
 Proof. split; reflexivity. Qed.
+
+(* ---- if-ok blocks are covered: the theorems above quantify over every node, NCondOK included
+        (no hypothesis excludes it).  The instance, spelled out: a writer that fails inside an
+        if-ok block -- in the header's branch or anywhere below -- is reported by the block ---- *)
+Theorem C17_fault_inside_ifok_is_writer_error :
+  forall flits lookup budget inc k ci child c w c' w' e,
+    w_failed w = false ->
+    write_node flits lookup budget inc (NCondOK k ci child) c w = Out c' w' e ->
+    w_failed w' = true -> e = Some EWriter.
+Proof. exact fault_node_condok. Qed.
+Print Assumptions C17_fault_inside_ifok_is_writer_error.
+
+From DT Require Import Model.Mods Spec.Ast Spec.Compile Proofs.RefineFindings.
+Example C17_fault_inside_ifok_example :
+  match run_nodes [] nolook 100 noinc (compile_tpl t_exit_in_ifok) c_ifok (wr_new (Some 1%nat) 0) with
+  | Out _ w e => (wr_bytes w, e, w_failed w) = ([], Some EWriter, true)
+  | _ => False
+  end.
+Proof. exact writer_fault_in_ifok_reported. Qed.
